@@ -170,6 +170,20 @@ def messagesOf : List Call → List Outbound
   | .dumps _ _ :: rest => messagesOf rest
   | .message it :: rest => it :: messagesOf rest
 
+/-! ## A child that is slow, or stalls, before it reads
+
+The writer hands every line to the pipe exactly once and then waits for as long as the child takes
+(there is no timeout and no retry in the code).  `playDelayed` gives each `send()` the time the child
+lets it wait; the result is the elapsed time and the sends the child finds in its pipe. -/
+
+def playDelayed (st : Style) : List (Outbound × Nat) → Nat × List (List Nat)
+  | [] => (0, [])
+  | (it, wait) :: rest =>
+    let r := playDelayed st rest
+    match ser st it with
+    | some l => (wait + r.1, encode (codes l ++ [LF]) :: r.2)
+    | none => r          -- nothing is written, nothing is waited for
+
 /-! ## Entry guards (`StdioClient.__init__`, `_ensure_streams_initialized`, `StdioTransport`)
 
     __init__:  if not server.command: raise ValueError ; if not isinstance(server.args, (list, tuple)): raise ValueError
